@@ -396,6 +396,85 @@ def replay_errpath(a):
     return None
 
 
+def fedback_cases(cfg):
+    """[(label, expected, observed)] raw outputs of the library as operands; Jacobian triples (Gx, Gy, zeta) with
+    zeta^6 = 1 (curve points that share X and Y with the generator); calls from a deep caller stack"""
+    S, m = L.get(cfg)
+    G = m.G
+    out = []
+
+    def norm(o):
+        return L.to_model(o[1]) if o[0] == "ok" else o
+
+    R3 = L.call(S.multiply, L.to_lib(G), 3)
+    if R3[0] == "ok":
+        raw = R3[1]
+        P3 = m.mul(G, 3)
+        out += [("add(multiply(G, 3) as returned, itself)", m.add(P3, P3), norm(L.call(S.add, raw, raw))),
+                ("add(multiply(G, 3) as returned, G)", m.add(P3, G), norm(L.call(S.add, raw, L.to_lib(G)))),
+                ("multiply(multiply(G, 3) as returned, 5)", m.mul(P3, 5), norm(L.call(S.multiply, raw, 5))),
+                ("add(add(G, G) as returned, multiply(G, 2) as returned)", m.mul(G, 4),
+                 norm(L.call(S.add, S.add(L.to_lib(G), L.to_lib(G)), S.multiply(L.to_lib(G), 2))))]
+    jm, ja, fj = getattr(S, "jacobian_multiply", None), getattr(S, "jacobian_add", None), getattr(S, "from_jacobian", None)
+    p = m.p
+    if jm is not None and fj is not None and p % 6 == 1:
+        g = 2
+        while pow(g, (p - 1) // 2, p) == 1 or pow(g, (p - 1) // 3, p) == 1:
+            g += 1
+        zeta = pow(g, (p - 1) // 6, p)
+        for k in range(1, 6):
+            z = pow(zeta, k, p)
+            iz2, iz3 = pow(z * z % p, -1, p), pow(z * z * z % p, -1, p)
+            Pa = (G[0] * iz2 % p, G[1] * iz3 % p)
+            if not m.on_curve(Pa):
+                continue
+            t = (G[0], G[1], z)
+            for n in (2, 5, m.n - 1):
+                o = L.call(lambda: fj(jm(t, n)))
+                out.append(("jacobian_multiply((Gx, Gy, zeta^%d), %d)" % (k, n if n < 10 else -1), m.mul(Pa, n), norm(o)))
+            if ja is not None:
+                o = L.call(lambda: fj(ja(t, (G[0], G[1], 1))))
+                out.append(("jacobian_add((Gx, Gy, zeta^%d), (Gx, Gy, 1))" % k, m.add(Pa, G), norm(o)))
+
+    def deep(n_, f):
+        return f() if n_ <= 0 else deep(n_ - 1, f)
+
+    if cfg == "full":
+        import sys
+        import inspect
+        for depth in range(100, 990, 110):
+            old = sys.getrecursionlimit()
+            try:
+                sys.setrecursionlimit(max(1000, len(inspect.stack(0)) + 60))
+                o = deep(depth, lambda: L.call(S.multiply, L.to_lib(G), m.n - 2))
+            except RecursionError:
+                o = ("raise", "RecursionError")
+            finally:
+                sys.setrecursionlimit(old)
+            if o == ("raise", "RecursionError"):
+                continue
+            out.append(("multiply(G, N - 2) with %d caller frames" % depth, m.mul(G, m.n - 2), norm(o)))
+    return out
+
+
+def task_fedback(a, env):
+    r = R("returned-objects-as-operands+triples-sharing-coordinates-with-G+deep-stack")
+    for cfg in a["cfgs"]:
+        for i, (lbl, exp, got) in enumerate(fedback_cases(cfg)):
+            r.ev += 1
+            r.dk.add((str(cfg), lbl))
+            if exp != got:
+                r.viol("C18:%s:%s" % ("full" if cfg == "full" else "tiny", lbl.split("(")[0]), ME + ":replay_fedback", {"cfg": cfg, "i": i}, exp, got, note=lbl)
+    r.transitions = r.ev
+    r.sample({"cases": "add(multiply(G,3), multiply(G,3)) on the returned objects; jacobian_multiply((Gx, Gy, zeta), n), zeta^6 = 1; multiply at caller depth 100..980"})
+    return r
+
+
+def replay_fedback(a):
+    lbl, exp, got = fedback_cases(a["cfg"])[a["i"]]
+    return None if exp == got else {"case": lbl, "expected": exp, "observed": got}
+
+
 def sweep_case(cfg, which, n):
     from .. import lib as _lib
     S, m = L.get(cfg)
@@ -486,6 +565,7 @@ def run(ctx):
     tasks.append(("full_unreduced", {}))
     tasks.append(("inv", {"hi": 500 if ctx.quick else 2000, "w": 1500 if ctx.quick else 20000}))
     tasks.append(("errpath", {"cfgs": ["full", list(curves[0]), list(curves[3])]}))
+    tasks.append(("fedback", {"cfgs": ["full", list(curves[0]), list(curves[1]), list(curves[3])]}))
     tasks.append(("sweep", {"cases": [["full", 150 if ctx.quick else 1100]]}))
     tasks.append(("sweep", {"cases": [[list(curves[0]), 600 if ctx.quick else 5000]]}))
     ctx.pmap(ME, tasks)
